@@ -32,6 +32,13 @@ from .utils import Cube
 __all__ = ("IOData",)
 
 
+def _sync_default_atcorenums(data, _attribute, atnums):
+    """Keep core charges that were never set explicitly equal to the (new) atomic numbers."""
+    if data._atcorenums is None or data._atcorenums_default:
+        data._set_default_atcorenums(atnums)
+    return atnums
+
+
 @attrs.define
 class IOData:
     """A container class for data loaded from (or to be written to) a file."""
@@ -58,6 +65,9 @@ class IOData:
     A (N,) float array with pseudo-potential core charges.
     The matrix elements corresponding to ghost atoms are zero.
     """
+
+    _atcorenums_default: bool = attrs.field(default=False, init=False, repr=False, eq=False)
+    """True when ``_atcorenums`` holds the default derived from ``atnums`` (never set explicitly)."""
 
     atffparams: dict = attrs.field(factory=dict)
     """
@@ -103,6 +113,7 @@ class IOData:
         default=None,
         converter=convert_array_to(int),
         validator=attrs.validators.optional(validate_shape("natom")),
+        on_setattr=[attrs.setters.convert, attrs.setters.validate, _sync_default_atcorenums],
     )
     """A (N,) int vector with the atomic numbers."""
 
@@ -272,6 +283,8 @@ class IOData:
         # https://www.attrs.org/en/stable/init.html#private-attributes
         if self._atcorenums is not None:
             self.atcorenums = self._atcorenums
+        elif self.atnums is not None:
+            self._set_default_atcorenums(self.atnums)
         if self._charge is not None:
             self.charge = self._charge
         if self._nelec is not None:
@@ -281,30 +294,49 @@ class IOData:
 
     # Public interfaces to private attributes
 
+    def _set_default_atcorenums(self, atnums: Optional[NDArray[int]]):
+        """Derive core charges that were never set explicitly from the given atomic numbers."""
+        if atnums is None:
+            if self._atcorenums_default:
+                self._drop_atcorenums()
+        else:
+            self.atcorenums = atnums.astype(float)
+            self._atcorenums_default = True
+
+    def _drop_atcorenums(self):
+        """Forget the core charges, keeping the charge that was derived from them."""
+        self._atcorenums_default = False
+        if self.nelec is not None and self._atcorenums is not None:
+            # Set _charge because charge can no longer be derived from
+            # atcorenums and nelec.
+            self._charge = self._atcorenums.sum() - self.nelec
+        self._atcorenums = None
+
     @property
     def atcorenums(self) -> NDArray[float]:
         """Effective core charges."""
         if self._atcorenums is None and self.atnums is not None:
-            self.atcorenums = self.atnums.astype(float)
+            self._set_default_atcorenums(self.atnums)
         return self._atcorenums
 
     @atcorenums.setter
     def atcorenums(self, atcorenums: NDArray):
         if atcorenums is None:
-            if self.nelec is not None and self._atcorenums is not None:
-                # Set _charge because charge can no longer be derived from
-                # atcorenums and nelec.
-                self._charge = self._atcorenums.sum() - self.nelec
-            self._atcorenums = None
+            self._drop_atcorenums()
+            if self.atnums is not None:
+                # Without explicit core charges, the default applies again.
+                self._set_default_atcorenums(self.atnums)
         else:
+            # Assign first: this validates the shape, so a rejected value has no side effects.
+            self._atcorenums = np.asarray(atcorenums, dtype=float)
+            self._atcorenums_default = False
             if self._charge is not None:
                 # _charge is treated as the dependent one, while atcorenums and
                 # nelec are treated as independent.
                 if self._nelec is None:
                     # Switch to storing _nelec.
-                    self._nelec = atcorenums.sum() - self._charge
+                    self._nelec = self._atcorenums.sum() - self._charge
                 self._charge = None
-            self._atcorenums = np.asarray(atcorenums, dtype=float)
 
     @property
     def charge(self) -> float:
